@@ -212,6 +212,9 @@ func (o GenOpt) Fresh() GenOpt {
 	return o
 }
 
+// WideSizes: further member counts for wide containers (set by mon from the integer literals of the tree under test).
+var WideSizes []int
+
 var DefaultKeys = []string{"a", "b", "c", "k", "doc", "items", "sub", "list", "n0", "x"}
 
 func DefScalar(r *rand.Rand) interface{} {
@@ -244,6 +247,9 @@ func (o GenOpt) fan(r *rand.Rand) int {
 	n := 0
 	if o.WideProb > 0 && r.Intn(o.WideProb) == 0 && !over {
 		n = 33 + r.Intn(48)
+		if len(WideSizes) > 0 && r.Intn(3) == 0 {
+			n = WideSizes[r.Intn(len(WideSizes))]
+		}
 	} else {
 		lo := 1
 		if o.EmptyConts {
